@@ -1490,7 +1490,14 @@ class OpGen:
             sub_attrs = list(self.cd(sc)["attrs"])
             rng.shuffle(sub_attrs)
             sub_attrs = sub_attrs[: rng.randrange(1, 3)]
-            if rng.random() < 0.6:
+            mode = rng.random()
+            if mode < 0.3:
+                # whole-value transform that returns its argument TOGETHER with attribute transforms: the value
+                # edited by the attribute transforms must still be a copy (C07-r2s1); copy-on-write and in place
+                toks = [f"f{x['name']}={self.transform_for(x['kind'], bad=False)}" for x in sub_attrs]
+                ipv = int(rng.random() < 0.3)
+                self.emit(f"op {'-' if ipv else self.dst(c)} trattr {r} {ad['name']} ident ip={ipv} " + " ".join(toks))
+            elif mode < 0.7:
                 if ad.get("prep") and rng.random() < 0.6:
                     self.emit(f"faults preparer:{rng.choice([1, 1, 2, 3])}")
                 toks = [f"k{x['name']}={self.value(x['kind'], bad=False)}" for x in sub_attrs]
